@@ -6,7 +6,7 @@ import stream_common as sc  # noqa: E402
 
 PROP = "C01"
 RULE = ("real ssnet.runonce on both tunnel ends over fake sockets, every micro-step replayed on the extracted model and the full "
-        "state of both ends compared after every iteration; cases: bulk transfers in both directions on 1-4 flows, payload sizes around 0/1/2048/32768/65536/100000, random segmentation, latency control on and off; a case is non-trivial when at least one flow was "
+        "state of both ends compared after every iteration; cases: bulk transfers in both directions on 1-4 flows, payload sizes around 0/1/2048/32768/65536/100000, random segmentation, latency control on and off; connections arriving on the IPv4 and the IPv6 listener through the real MultiListener.add_handler, dialled to several hosts/ports incl. foreign hosts on the client's own listening port (real helpers.islocal on kernel sockets) — oracles: every captured connection is tunnelled, and to the dialled destination; the tunnel ending under open flows (prefix oracles on everything delivered); a case is non-trivial when at least one flow was "
         "accepted; distinct by case seed")
 TRUSTED_BASE = sc.STREAM_TB
 ASSUMPTIONS = sc.STREAM_ASSUMPTIONS
